@@ -116,6 +116,10 @@ Definition b_used (b : bucket) : Z := Z.of_nat (length (b_ents b)).
 Definition hnew (max : option Z) (ikp : bool) : hmap :=
   mkH 0 (CONT_MIN_BUCKETS - 1) (repeat bempty (Z.to_nat CONT_MIN_BUCKETS)) [] 0 None None max ikp false [].
 
+(* iwhmap_create: `if (!hash_key_fn) return 0;` (allocation failures are not modelled) *)
+Definition hcreate (has_hash_fn : bool) (max : option Z) (ikp : bool) : option hmap :=
+  if has_hash_fn then Some (hnew max ikp) else None.
+
 Definition with_bkts (m : hmap) (bs : list bucket) : hmap :=
   mkH (h_count m) (h_mask m) bs (h_heap m) (h_fresh m) (h_first m) (h_last m) (h_max m) (h_ikp m) (h_fault m) (h_log m).
 Definition with_count (m : hmap) (c : Z) : hmap :=
@@ -130,6 +134,8 @@ Definition with_first (m : hmap) (f : option nat) : hmap :=
   mkH (h_count m) (h_mask m) (h_bkts m) (h_heap m) (h_fresh m) f (h_last m) (h_max m) (h_ikp m) (h_fault m) (h_log m).
 Definition with_last (m : hmap) (l : option nat) : hmap :=
   mkH (h_count m) (h_mask m) (h_bkts m) (h_heap m) (h_fresh m) (h_first m) l (h_max m) (h_ikp m) (h_fault m) (h_log m).
+Definition with_max (m : hmap) (mx : option Z) : hmap :=
+  mkH (h_count m) (h_mask m) (h_bkts m) (h_heap m) (h_fresh m) (h_first m) (h_last m) mx (h_ikp m) (h_fault m) (h_log m).
 Definition set_fault (m : hmap) : hmap :=
   mkH (h_count m) (h_mask m) (h_bkts m) (h_heap m) (h_fresh m) (h_first m) (h_last m) (h_max m) (h_ikp m) true (h_log m).
 Definition add_log (m : hmap) (x : option K * Z) : hmap :=
@@ -279,6 +285,14 @@ Definition entry_remove (m : hmap) (bi ei : nat) : hmap :=
       else m3
   end.
 
+(* iwhmap_lru_eviction_max_count(hm, max_count_val): iwhmap_count(hm) > max_count *)
+Definition hevmax (m : hmap) (mx : Z) : bool := h_count m >? mx.
+
+(* iwhmap_lru_init(hm, iwhmap_lru_eviction_max_count, mx) - at ANY time: only the two fields change.  Entries created
+   before keep lru_node == 0 (e_lru = None), the recency list holds only the keys touched since.
+   (iwhmap_lru_init(hm, 0, ..) on a map whose list is not empty is out of scope: the nodes stay behind.) *)
+Definition hlruinit (m : hmap) (mx : Z) : hmap := with_max m (Some mx).
+
 (* the eviction loop of iwhmap_put *)
 Fixpoint evict (fuel : nat) (m : hmap) : hmap :=
   match fuel with
@@ -286,7 +300,7 @@ Fixpoint evict (fuel : nat) (m : hmap) : hmap :=
   | S f =>
     match h_first m, h_max m with
     | Some n, Some mx =>
-      if h_count m >? mx then
+      if hevmax m mx then
         match hget (h_heap m) n with
         | None => set_fault m
         | Some x =>
@@ -382,6 +396,58 @@ Definition hdestroy (m : hmap) : hmap :=
   free_chain (S (length (h_heap m1))) m1 (h_first m1).
 
 Definition hiter (m : hmap) : list (K * Z) := map (fun e => (e_key e, e_val e)) (ents (h_bkts m)).
+
+(* iwhmap_iter_init / iwhmap_iter_next, step by step.  it_hm = (iter->hm != 0); it_cur = (iter->key, iter->val).
+   `guard` = false is the code; true is the variant that returns false when iter->bucket is already past the array.
+   In the code a call with iter->bucket >= n_buckets (the state left behind by the call that returned false) reads
+   `bucket->used` one element past the bucket array: it_fault. *)
+Record iter := mkIt { it_hm : bool; it_bucket : nat; it_entry : Z; it_cur : option (K * Z); it_fault : bool }.
+
+Definition iter_init (hm : bool) : iter := mkIt hm 0 (-1) None false.
+
+(* for (++iter->bucket; iter->bucket < n; ++iter->bucket) if (bucket->used > 0) break; *)
+Fixpoint iter_scan (fuel : nat) (bs : list bucket) (n i : nat) : nat :=
+  match fuel with
+  | O => i
+  | S f => if (i <? n)%nat then (if 0 <? b_used (bkt bs i) then i else iter_scan f bs n (S i)) else i
+  end.
+
+Definition iter_next (guard : bool) (m : hmap) (it : iter) : iter * bool :=
+  if negb (it_hm it) then (it, false) else
+  let n := Z.to_nat (h_mask m + 1) in
+  let past := (n <=? it_bucket it)%nat in
+  if guard && past then (it, false) else
+  let flt := it_fault it || past in
+  let b := bkt (h_bkts m) (it_bucket it) in
+  let e := it_entry it + 1 in
+  if e >=? b_used b then
+    let bk := iter_scan n (h_bkts m) n (S (it_bucket it)) in
+    if (n <=? bk)%nat then (mkIt true bk 0 (it_cur it) flt, false)
+    else match nth_error (b_ents (bkt (h_bkts m) bk)) 0 with
+         | Some x => (mkIt true bk 0 (Some (e_key x, e_val x)) flt, true)
+         | None => (mkIt true bk 0 (it_cur it) true, true)
+         end
+  else match nth_error (b_ents b) (Z.to_nat e) with
+       | Some x => (mkIt true (it_bucket it) e (Some (e_key x, e_val x)) flt, true)
+       | None => (mkIt true (it_bucket it) e (it_cur it) true, true)
+       end.
+
+(* while (iwhmap_iter_next(&it)) emit(it.key, it.val);  - result: the pairs, the iterator after the call that
+   returned false, the number of calls that returned true *)
+Fixpoint iter_run (guard : bool) (fuel : nat) (m : hmap) (it : iter) : list (K * Z) * iter * nat :=
+  match fuel with
+  | O => ([], it, O)
+  | S f =>
+    let '(it', ok) := iter_next guard m it in
+    if ok then
+      let '(l, itf, c) := iter_run guard f m it' in
+      ((match it_cur it' with Some p => [p] | None => [] end) ++ l, itf, S c)
+    else ([], it', O)
+  end.
+
+(* `hm iter` of the harness: init, then next until false (at most count + 1 calls are needed) *)
+Definition hiter_steps (m : hmap) : list (K * Z) * iter * nat :=
+  iter_run false (S (Z.to_nat (h_count m))) m (iter_init true).
 
 (* forward walk of the LRU chain as the harness does it: keys, and whether prev links / last agree *)
 Fixpoint lru_walk (fuel : nat) (h : heap) (prev cur : option nat) : list K * bool * option nat :=
@@ -483,6 +549,7 @@ Definition s_rename (s : smap) (kold knew : K) : smap * list (option K * Z) :=
     (mkS al r (s_max s) (s_ikp s), [(s_fkey s kold, 0); old])
   | None => (s, [])
   end.
+Definition s_lruinit (s : smap) (mx : Z) : smap := mkS (s_al s) (s_rec s) (Some mx) (s_ikp s).
 Definition s_clear (s : smap) : smap * list (option K * Z) :=
   (mkS [] [] (s_max s) (s_ikp s), map (fun p => (s_fkey s (fst p), snd p)) (s_al s)).
 End Spec.
@@ -494,12 +561,12 @@ Variable keq : K -> K -> bool.
 Variable hashf : K -> Z.
 
 Inductive hop := HPut (k : K) (v : Z) | HGet (k : K) | HRemove (k : K) | HRename (a b : K)
-               | HClear | HCount | HIter | HLru.
+               | HClear | HCount | HIter | HLru | HLruInit (mx : Z).
 Definition flog := list (option K * Z).
 Inductive hout :=
   | OPut (n : Z) (lg : flog) | OGet (v : Z) (n : Z) (lg : flog) | ORemove (b : bool) (n : Z) (lg : flog)
   | ORename (n : Z) (lg : flog) | OClear (n : Z) (lg : flog) | OCount (n : Z)
-  | OIter (l : list (K * Z)) | OLru (l : list K) (wf : bool).
+  | OIter (l : list (K * Z)) | OLru (l : list K) (wf : bool) | OLruInit.
 
 Definition h_step (m0 : hmap K) (op : hop) : hmap K * hout :=
   let m := clear_log K m0 in
@@ -512,6 +579,7 @@ Definition h_step (m0 : hmap K) (op : hop) : hmap K * hout :=
   | HCount => (m, OCount (h_count K m))
   | HIter => (m, OIter (hiter K m))
   | HLru => (m, let '(ks, ok) := hlru K m in OLru ks ok)
+  | HLruInit mx => (hlruinit K m mx, OLruInit)
   end.
 
 Definition s_step (s : smap K) (op : hop) : smap K * hout :=
@@ -525,6 +593,7 @@ Definition s_step (s : smap K) (op : hop) : smap K * hout :=
   | HCount => (s, OCount (n s))
   | HIter => (s, OIter (s_al K s))
   | HLru => (s, OLru (if lru_is_on K s then s_rec K s else []) true)
+  | HLruInit mx => (s_lruinit K s mx, OLruInit)
   end.
 
 Fixpoint h_run (m : hmap K) (ops : list hop) : list hout :=
